@@ -14,6 +14,7 @@ from harness import worldl_common as W
 RPOOL = [1, 2, 3, -1]
 RKINDS = ['r', 'ar', 'ar', 'arp', 'rp']
 MAXDEPTH = 3
+MAXCALLS = 40      # scripts stop running after that many callbacks in one operation
 
 
 def run(case):
@@ -24,6 +25,7 @@ def run(case):
     log = []
     world = desper.World()
     depth = [0]
+    ncalls = [0]
     insts = [None]
     classes = [None]
     lid = {}
@@ -64,9 +66,11 @@ def run(case):
         def cb(self, entity, w):
             log.append(['call', kind, self._lid, ent_z(entity), w is world])
             d = depth[0]
+            n = ncalls[0]
             depth[0] += 1
+            ncalls[0] += 1
             try:
-                if d < MAXDEPTH:
+                if d < MAXDEPTH and n < MAXCALLS:
                     for a in script:
                         log.append(['act', a])
                         ret, exc = None, 0
@@ -142,6 +146,7 @@ def run(case):
     for k, o in enumerate(case['ops']):
         del log[:]
         depth[0] = 0
+        ncalls[0] = 0
         ret, exc, done = None, 0, []
         before = rows() if o[0] == 'process' else None
         try:
@@ -247,10 +252,14 @@ def gen_case_r(rng, nops_max=14):
         sa = gen_script(rng, ninst, nk, cls) if 'a' in kinds[t] and rng.random() < 0.5 else []
         sr = gen_script(rng, ninst, nk, cls) if rng.random() < 0.7 else []
         scr.append([sa, sr])
-    case = dict(kinds=kinds, cls=cls, scr=scr, ops=[], qseed=rng.randrange(1 << 30))
-    ops = case['ops']
+    case = dict(kinds=kinds, cls=cls, scr=scr, ops=gen_ops(rng, rng.randint(2, nops_max), nk, ninst, cls),
+                qseed=rng.randrange(1 << 30))
+    return case
+
+
+def gen_ops(rng, n, nk, ninst, cls, toggles=True):
+    ops = []
     enabled = True
-    n = rng.randint(2, nops_max)
     while len(ops) < n:
         r = rng.random()
         e = rng.choice(RPOOL)
@@ -273,11 +282,66 @@ def gen_case_r(rng, nops_max=14):
         elif r < 0.88:
             ops.append(['process'])
         elif r < 0.97:
-            enabled = not enabled
-            ops.append(['enable', enabled])
+            if toggles:
+                enabled = not enabled
+                ops.append(['enable', enabled])
         else:
             ops.append(['addproc'])
+    return ops
+
+
+def gen_case_focus(rng):
+    """several marked entities whose on_remove touch the other marked entities
+    while the frame is draining the marks"""
+    nk = rng.randint(2, 3)
+    kinds = [rng.choice(['r', 'ar']) for _ in range(nk)]
+    ninst = rng.randint(4, 8)
+    cls = [rng.randint(1, nk) for _ in range(ninst)]
+    ents = rng.sample(RPOOL, rng.randint(2, 4))
+    scr = []
+    for t in range(nk):
+        sr = []
+        for _ in range(rng.choice([1, 1, 2])):
+            e = rng.choice(ents)
+            r = rng.random()
+            if r < 0.5:
+                sr.append(['delete', e, True])
+            elif r < 0.7:
+                sr.append(['remove', e, rng.randint(1, nk)])
+            elif r < 0.85:
+                sr.append(['delete', e, False])
+            else:
+                sr.append(['add', e, rng.randint(1, ninst)])
+        sa = gen_script(rng, ninst, nk, cls) if 'a' in kinds[t] and rng.random() < 0.3 else []
+        scr.append([sa, sr])
+    ops = []
+    free = list(range(1, ninst + 1))
+    rng.shuffle(free)
+    for e in ents:
+        if not free:
+            break
+        comps = [free.pop()]
+        if free and rng.random() < 0.3 and cls[free[-1] - 1] != cls[comps[0] - 1]:
+            comps.append(free.pop())
+        ops.append(['create', e, comps])
+    marks = [['delete', e, False] for e in ents if rng.random() < 0.85]
+    rng.shuffle(marks)
+    ops += marks
+    if rng.random() < 0.3:
+        ops.insert(rng.randrange(len(ops) + 1), ['enable', False])
+        ops.append(['process'])
+        ops.append(['enable', True])
+    else:
+        ops.append(['process'])
+    if rng.random() < 0.5:
+        ops.append(['process'])
+    tail = gen_ops(rng, rng.randint(0, 4), nk, ninst, cls, toggles=False)
+    case = dict(kinds=kinds, cls=cls, scr=scr, ops=ops + tail, qseed=rng.randrange(1 << 30))
     return case
+
+
+def gen_r(rng, n):
+    return [gen_case_focus(rng) if rng.random() < 0.4 else gen_case_r(rng) for _ in range(n)]
 
 
 def stats_r(cases, traces):
